@@ -14,7 +14,15 @@ import (
 	"golang.org/x/tools/go/ssa/ssautil"
 )
 
-const repoDir = "/repo"
+// repoDir is the tree under verification: /repo, or a scratch worktree of it for the seeded-change corpus (GOVC_REPO)
+var repoDir = envOr("GOVC_REPO", "/repo")
+
+func envOr(k, d string) string {
+	if v := os.Getenv(k); v != "" {
+		return v
+	}
+	return d
+}
 const modPath = "github.com/tellor-io/layer"
 
 // Prog is the loaded program: typed syntax + SSA for the in-scope packages of
@@ -30,6 +38,8 @@ type Prog struct {
 	Contracts map[string]*Contract // key: funcKey
 	srcCache  map[string][]byte
 	Macros    map[string]*Macro
+	AutoEntries []string // functions that received the default lock entry contract
+	Guarded   map[string]bool // "<pkg rel path>.<Type>.<field>": field may only be touched with the lock held
 	globConst map[*ssa.Global]*ssa.Const
 	globInit  bool
 	idxFns    map[string]*ssa.Function
@@ -70,7 +80,7 @@ func loadProg(patterns []string) (*Prog, error) {
 		return nil, fmt.Errorf("package errors (tree does not compile):\n%s", strings.Join(errs, "\n"))
 	}
 	prog, spkgs := ssautil.Packages(pkgs, ssa.InstantiateGenerics|ssa.GlobalDebug)
-	p := &Prog{Fset: fset, Pkgs: pkgs, SSA: prog, ByPath: map[string]*packages.Package{}, Funcs: map[string]*ssa.Function{}, Contracts: map[string]*Contract{}, srcCache: map[string][]byte{}, Macros: map[string]*Macro{}}
+	p := &Prog{Fset: fset, Pkgs: pkgs, SSA: prog, ByPath: map[string]*packages.Package{}, Funcs: map[string]*ssa.Function{}, Contracts: map[string]*Contract{}, srcCache: map[string][]byte{}, Macros: map[string]*Macro{}, Guarded: map[string]bool{}}
 	for i, sp := range spkgs {
 		if sp == nil {
 			continue
